@@ -9,3 +9,5 @@ func (cpu *CPU) VerifRegs() [8]uint8 {
 func (cpu *CPU) VerifWiredTo(m interface{}, o interface{}, i interface{}) bool {
 	return interface{}(cpu.mapper) == m && interface{}(cpu.oam) == o && interface{}(cpu.interrupts) == i
 }
+
+func (cpu *CPU) VerifParts() []interface{} { return []interface{}{cpu.mapper, cpu.oam, cpu.interrupts} }
